@@ -214,7 +214,9 @@ def main():
                 raise common.MachineryError("cannot build the spawn driver: " + se[-1500:])
             for K in ([1, 2, 4, 8] if tier == "quick" else [1, 2, 3, 4, 8, 8, 16, 32, 32]) if with_start else [2]:
                 for rep in range(3 if tier == "quick" else 30):
-                    rc, so, se = run([exe_s, str(K)], timeout=60)
+                    # the last repetition: every thread spawns many times, all meeting before each call
+                    M_ = (25 if tier == "quick" else 60) if (with_start and K >= 4 and rep == 2) else 1
+                    rc, so, se = run([exe_s, str(K), str(M_)], timeout=120)
                     try:
                         h = json.loads(so.strip().splitlines()[-1])
                     except (ValueError, IndexError):
